@@ -352,12 +352,41 @@ class _Marker(Index):
         raise ModelGap("%s is outside the integer-index model" % type(self).__name__)
 
 
-class PeriodIndex(_Marker):
+class _TimeLike(Int64Index):
+    """period / time-stamp indices: in pandas 1.x subclasses of Int64Index.  Opaque here -- they can be made (through
+    period_range / date_range) and recognised by type, which is all that validation code does with them before refusing
+    them; any use of their values is outside the integer-index model."""
+
+    def __init__(self, *a, **k):
+        raise ModelGap("%s is outside the integer-index model" % type(self).__name__)
+
+    @classmethod
+    def _opaque(cls, n):
+        o = object.__new__(cls)
+        Index.__init__(o, list(_b.range(n)))
+        return o
+
+    def _new(self, arr):
+        return type(self)._opaque(len(arr))
+
+    def _mnp_values(self):
+        raise ModelGap("values of a %s are outside the integer-index model" % type(self).__name__)
+
+
+class PeriodIndex(_TimeLike):
     pass
 
 
-class DatetimeIndex(_Marker):
+class DatetimeIndex(_TimeLike):
     pass
+
+
+def period_range(start=None, end=None, periods=None, freq=None, name=None):
+    return PeriodIndex._opaque(_b.int(periods))
+
+
+def date_range(start=None, end=None, periods=None, freq=None, **kw):
+    return DatetimeIndex._opaque(_b.int(periods))
 
 
 class TimedeltaIndex(_Marker):
